@@ -10,7 +10,7 @@ HYGIENE = (" On every function these rules pass through (and its callees) twelve
            " (sa/hygiene.py, DESIGN §8.2c): no state kept in a mutable default argument, no single-pass iterator consumed twice or inside"
            " a loop (also across a call), no stored closure over a loop variable, no regex flag in a count/maxsplit position, no"
            " comprehension clause reading a name bound by a later clause, no table entries glued by a missing comma, no enum alias, no"
-           " click option whose kind disagrees with the annotated parameter it fills, no text-mode file I/O without an explicit encoding, no class table attribute that is a string where its siblings have a sequence, no name left unbound by a handler that swallows an exception, no `if …: pass` check without consequence. The inventory of indirection on the same scope (decorators, special methods, overrides, class / field options, bases, library callbacks, import-time statements; sa/inventory.py, DESIGN §8.2d) must equal the confirmed one - a deviation is reported as not decided (exit 2), never as a violation.")
+           " click option whose kind disagrees with the annotated parameter it fills, no text-mode file I/O without an explicit encoding, no class table attribute that is a string where its siblings have a sequence, no name left unbound by a handler that swallows an exception, no `if …: pass` check without consequence. The inventory of indirection on the same scope (decorators, special methods, overrides, class / field options, bases, library callbacks, import-time statements; sa/inventory.py, DESIGN §8.2d) must equal the confirmed one - a deviation is reported as not decided (exit 2), never as a violation. A report about a function that delegates to a helper the confirmed tree does not have and that could not be read in place is likewise an undecided clause naming the helper (sa/gate.py, DESIGN §8.6 round 14).")
 
 # property -> (technique, level text, level note, design ref)
 CHECKS: dict[str, tuple[str, str, str, str]] = {
@@ -125,6 +125,7 @@ CHECKS: dict[str, tuple[str, str, str, str]] = {
         " JSON lists; the plain verdict sentence follows is_compliant; ProjectSubsetReport's verdict, filters and"
         " propagation agree with ProjectReport's on the four shared categories and with what format_lines_subset"
         " prints; lint-file exits 0 iff compliant on every path and rejects outside files before generating."
+        " In format_plain a section guarded by `if report.X:` lists X and every labelled summary line is computed from its own category (R11)."
         " Textual equality of rendered paths is not decided. The subset report examines subset_files(F) whenever F was given (an empty F is not 'no subset'). Nothing is carried from one examined file to the next (task purity shared with C14). A rendering loop does not range over a re-keyed dictionary that can collapse (identifier, file) pairs. Inherits C03 (covered set). Each output option echoes the text of its own formatter applied to the generated report (decision table of the lint / lint-file commands, R9); format_json hands json.dumps a handler that turns sets into lists and paths into strings (R10); each part of the plain report's file partition is written element by element.",
         "Trusted: ast, sa/tab.py.",
         "DESIGN.md §3 C13",
